@@ -20,10 +20,10 @@ def multi : P String := do
   let mc ← flt; let r ← flt; let dG ← flt; let ge ← flt
   pure (fout (growthMulti mc r dG ge))
 
-/-- gen.kwn kf mc R dGv Vm E f gamma → growthMultiKWN -/
+/-- gen.kwn kf mc R dGv Vm Va E f gamma → growthMultiKWN -/
 def kwn : P String := do
-  let kf ← flt; let mc ← flt; let r ← flt; let dv ← flt; let vm ← flt; let e ← flt; let f ← flt; let g ← flt
-  pure (fout (growthMultiKWN kf mc r dv vm e f g))
+  let kf ← flt; let mc ← flt; let r ← flt; let dv ← flt; let vm ← flt; let va ← flt; let e ← flt; let f ← flt; let g ← flt
+  pure (fout (growthMultiKWN kf mc r dv vm va e f g))
 
 /-- gen.bin kf D eff x xa xb Va Vb R → superSat, growthBinary -/
 def bin : P String := do
